@@ -1,6 +1,7 @@
 SPECIFICATION Spec
 CONSTANTS
   MaxB = 1
+  MinW = 1
   MaxW = 2
   NFiles = 2
   SecondHandle = FALSE
